@@ -193,3 +193,60 @@ class simulate_protocol:
             self.model is old(self.model),
         ],
     }
+
+
+# ----------------------------------------------------------------------------- time courses (C04)
+# simulate_time_course is simulate with an explicit grid: the same continuation rule in
+# ABSOLUTE time, decided on the LAST requested point.  numpy vectors: pyvc/lib_tp.py.
+
+
+@contract("mxlpy.integrators.abstract:AbstractIntegrator.integrate_time_course")
+class integrator_integrate_time_course:
+    trusted = "abstract method of the integrator protocol: assumed contract (an integrator asked for a grid returns, on success, a TimeCourse ending at the last grid point on its own clock); the shipped Scipy integrator is exercised by the bounded stand-in"
+    ensures = lambda self, time_points, result: [
+        has_type(result, "Result"),
+        req_end(result) == v_last(time_points),
+        implies(has_type(result.value, "TimeCourse"), tc_end(result.value) == v_last(time_points)),
+    ]
+    modifies = lambda self, time_points: [self]
+
+
+@contract("mxlpy.simulator:Simulator.simulate_time_course")
+class simulate_time_course:
+    opts = {"timepoints": True}
+    requires = lambda self, time_points: Inv(self)
+    raises = {ValueError: lambda self, time_points: len(self._errors) == 0 and v_last(time_points) <= reached(self)}
+    on_raise = lambda self, time_points: [
+        self.variables is old(self.variables),
+        self.variables is None or unchanged(self.variables),
+        unchanged(self._errors),
+    ]
+    ensures = lambda self, time_points, result: [
+        result is self,
+        Inv(self),
+        self._time_shift is old(self._time_shift),
+        implies(
+            old(len(self._errors)) > 0,
+            self.variables is old(self.variables) and unchanged(self._errors),
+        ),
+        # the new segment ends exactly at the last requested point, in absolute time ...
+        implies(
+            old(len(self._errors)) == 0 and len(self._errors) == 0,
+            self.variables is not None
+            and reached(self) == old(v_last(time_points))
+            and reached(self) > old(reached(self)),
+        ),
+        # ... or exactly one failure was recorded and the results are as before
+        implies(
+            old(len(self._errors)) == 0 and len(self._errors) > 0,
+            self.variables is old(self.variables) and len(self._errors) == 1,
+        ),
+    ]
+    modifies = lambda self, time_points: [
+        field(self, "variables"),
+        field(self, "simulation_parameters"),
+        self._errors,
+        self.integrator,
+        maybe(self.variables),
+        maybe(self.simulation_parameters),
+    ]
